@@ -8,9 +8,9 @@ META = {
                  'sequential operation) + bucketAndSubIndex/allocCheckIndex regenerated from the source by the translator + differential run of the real '
                  'ConcurrentVector<life::L, Traits> against the model and against std::vector, judged inside Coq (vm_compute)',
     'text': 'Kernel-checked: bucket_bijection (index <-> (bucket, sub-index) with the documented capacities for every index), the array laws of the bucketed '
-            'storage, sufficiency of all three allocation strategies, refinement of std::vector (contents, sizes, returned positions) by every operation and '
-            'balanced element lifetimes on the complement of the two modelled defects; refutation witnesses for erase (undestroyed tail, wrong returned '
-            'iterator) and single-element insert (placement new over a live element).  The real code is run on generated operation sequences biased to '
+            'storage, sufficiency of all three allocation strategies, and C32_holds: refinement of std::vector (contents, sizes, returned positions) and '
+            'balanced element lifetimes for EVERY operation sequence (after the repairs of erase and single-element insert in /repo; the former refutation '
+            'witnesses are regression examples, replayed first on every run).  The real code is run on generated operation sequences biased to '
             'bucket boundaries for 6 trait/element-size sets; model, std::vector and implementation are compared after every operation inside Coq.',
     'note': 'Trusted: Coq kernel; tools/translate.py + clang AST (detail::log2 is taken as the primitive Z.log2); harness/h_cvec.cpp + harness/life.h; '
             'python case generation.  No axioms (Print Assumptions: closed).',
@@ -25,9 +25,6 @@ ASSUMPTIONS = [
 ]
 
 PACK = os.environ.get('C32_PACK') is not None      # hexadecimal packing of long lists: measured slower to parse than plain lists
-KEY_ERASE_LIFE = 'erase-leaves-tail-undestroyed'
-KEY_ERASE_RET = 'erase-returns-new-end'
-KEY_INSERT = 'insert-single-constructs-over-live'
 
 TS_FIRSTLEN = {0: 1, 1: 1, 2: 1, 3: 2, 4: 4, 5: 16}
 CK = {'copy': 'KCopy', 'move': 'KMove', 'value': 'KValue'}
@@ -266,12 +263,12 @@ class Gen:
         return ops
 
 
-CLEAN = ['push', 'push', 'grow', 'grow', 'grow', 'pop', 'shrinksize', 'erase_tail', 'insertn', 'assign', 'mem', 'mem', 'two', 'recreate', 'observe']
-ALL = CLEAN + ['erase', 'erase', 'insert1']
+ALL = ['push', 'push', 'grow', 'grow', 'grow', 'pop', 'shrinksize', 'erase_tail', 'insertn', 'assign', 'mem', 'mem', 'two', 'recreate', 'observe',
+       'erase', 'erase', 'insert1']
 
 
 def witnesses():
-    """deterministic replays of the registered findings (first on every run)"""
+    """regression cases: the witnesses of the repaired defects (erase leak / erase return value / insert over live), replayed first on every run"""
     w = []
     for ts in (0, 5):
         w.append(('erase3', ts, [(0, 'emplace', [1]), (0, 'emplace', [2]), (0, 'emplace', [3]), (0, 'erase', [0])]))
@@ -382,9 +379,8 @@ def run(ctx):
         k += 1
         maxn = {0: 40, 1: 40, 2: 40, 3: 40, 4: 40, 5: 72}[ts] if ctx.quick else {0: 70, 1: 70, 2: 70, 3: 70, 4: 70, 5: 140}[ts]
         g = Gen(r, ts, maxn)
-        clean = r.random() < 0.55
         length = r.choice([3, 6, 10, 16, 24, 32, 40])
-        cases.append(('rnd', ts, g.case(length, CLEAN if clean else ALL)))
+        cases.append(('rnd', ts, g.case(length, ALL)))
     lines = [case_line(ts, ops) for _, ts, ops in cases]
     outs = pf_common.run_harness(exe, lines, timeout=600)
     kept = []
@@ -410,11 +406,10 @@ def run(ctx):
                 ctx.violation('ConcurrentVector contents differ from std::vector on: %s' % ln[:400], {'case': ln, 'cmd': 'echo "%s" | %s' % (ln, exe)})
                 break
         return
-    hist = {0: 0, 1: 0, 2: 0, 3: 0}
+    hist = {0: 0, 1: 0, 2: 0}
     distinct = set()
-    known_hits = {}
     for (nm, ts, ops, p, ln), v in zip(kept, res):
-        verdict, agree, contents, pos, pos_erase, life, dom_e, dom_i, pre, first = v
+        verdict, agree, contents, pos, life, pre, first = v
         hist[verdict] += 1
         fl = TS_FIRSTLEN[ts]
         if any(len(s['self']) > 2 * fl for s in p['steps']):
@@ -428,36 +423,16 @@ def run(ctx):
                 what.append('contents/size differ from std::vector')
             if not pos:
                 what.append('a returned position differs from std::vector')
-            if not pos_erase:
-                what.append('(a shifting erase also returned the new end(), as in the known finding)')
             if not life:
-                what.append('element lifetimes are not balanced (final ledger cv cc cm ac am d live moved e0..e4 = %s)' % p['final'][:13])
+                what.append('element lifetimes are not balanced (final ledger cv cc cm ac am d live moved e0..e4 = %s; blocks %s)' % (p['final'][:13], p['tail']))
             if not agree:
                 what.append('implementation differs from the model at step %d' % first)
-            ctx.violation('ConcurrentVector (trait set %d): %s; sequence: %s' % (ts, '; '.join(what), ln[:600]), replay)
-        elif verdict == 3:
-            if not pos_erase:
-                known_hits.setdefault(KEY_ERASE_RET, (ln, p))
-            if not life and dom_e:
-                known_hits.setdefault(KEY_ERASE_LIFE, (ln, p))
-            if not life and dom_i and not dom_e:
-                known_hits.setdefault(KEY_INSERT, (ln, p))
-            elif not life and dom_i and KEY_INSERT not in known_hits and any(s['led'][8] > 0 for s in p['steps']):
-                known_hits.setdefault(KEY_INSERT, (ln, p))
+            ctx.violation('ConcurrentVector (trait set %d%s): %s; sequence: %s' % (ts, ', regression witness ' + nm if nm != 'rnd' else '', '; '.join(what), ln[:600]), replay)
         elif verdict == 1:
             ctx.broken.append('correspondence D(C32): implementation differs from the model at step %d (property still holds there): %s' % (first, ln[:300]))
-    texts = {
-        KEY_ERASE_LIFE: 'erase() that shifts a tail down never destroys the vacated (moved-from) tail elements: constructions != destructions',
-        KEY_ERASE_RET: 'erase() returns the new end() instead of the iterator following the removed element(s)',
-        KEY_INSERT: 'insert(pos, value) placement-news over the element at pos without destroying it (ConstructOverLive)',
-    }
-    for key, (ln, p) in known_hits.items():
-        ctx.violation('%s; witness: %s; final ledger %s' % (texts[key], ln[:300], p['final'][:13]),
-                      {'finding_key': key, 'case': ln, 'cmd': 'echo "%s" | %s' % (ln, exe), 'final_ledger': p['final']})
     ctx.cov['distinct_nontrivial'] += len(distinct)
-    ctx.cov['verdict_histogram'] = {'agree_and_property_holds': hist[0], 'differs_but_property_holds': hist[1], 'property_fails': hist[2],
-                                    'property_fails_exactly_as_modelled_in_finding_domain': hist[3]}
-    ctx.cov['traces_validated_against_impl'] += hist[0] + hist[3]
+    ctx.cov['verdict_histogram'] = {'agree_and_property_holds': hist[0], 'differs_but_property_holds': hist[1], 'property_fails': hist[2]}
+    ctx.cov['traces_validated_against_impl'] += hist[0]
     ctx.cov['per_trait_set'] = {str(ts): sum(1 for _, t, _, _, _ in kept if t == ts) for ts in range(6)}
     lens = {}
     for _, _, ops, _, _ in kept:
